@@ -106,6 +106,30 @@ pub fn eit_handler(a: &[&str]) -> String {
     format!("{};hint={},{}", sink.show(), hint.0, hint.1.map(|u| u.to_string()).unwrap_or("none".into()))
 }
 
+/// EBLK <method> <start> <count>: FNV-1a 64 over the outputs of one method on a block of consecutive arguments
+pub fn eblk_handler(a: &[&str]) -> String {
+    let start: i128 = a[1].parse().unwrap();
+    let count: i128 = a[2].parse().unwrap();
+    let mut h: u64 = 14695981039346656037;
+    let mut buf = [0u8; 16];
+    for k in 0 .. count {
+        let x = start + k;
+        let n = {
+            let mut e = Encoder::new(minicbor::encode::write::Cursor::new(&mut buf[..]));
+            let ok = match a[0] {
+                "u32" => e.u32(x as u32).is_ok(), "i32" => e.i32(x as i32).is_ok(), "f32" => e.f32(f32::from_bits(x as u32)).is_ok(),
+                "u64lo" => e.u64(x as u64).is_ok(), "i64lo" => e.i64(x as i64).is_ok(),
+                _ => return "?bad-EBLK".into()
+            };
+            if !ok { return "err".into() }
+            e.writer().position()
+        };
+        for b in &buf[.. n] { h = (h ^ (*b as u64)).wrapping_mul(1099511628211); }
+        h = (h ^ 255).wrapping_mul(1099511628211);
+    }
+    format!("{:016x}", h)
+}
+
 /// IC <z>: Int::try_from(i128) and every conversion out of / into Int
 pub fn ic_handler(a: &[&str]) -> String {
     let z: i128 = a[0].parse().unwrap();
